@@ -28,15 +28,16 @@ def decOptPlugin (f : String) : Option (Option Plugin) :=
   if f = "~" then some none else (decPlugin f).map some
 
 def decFaults (f : String) : Option Faults :=
+  let bit (ch : Char) : Option Bool := if ch = '0' then some false else if ch = '1' then some true else none
   match f.toList with
-  | [a, b, c, d] =>
-    let bit (ch : Char) : Option Bool := if ch = '0' then some false else if ch = '1' then some true else none
-    do
-      let a ← bit a
-      let b ← bit b
-      let c ← bit c
-      let d ← bit d
-      pure ⟨a, b, c, d⟩
+  | [a, b, c, d, e, g] => do
+    let a ← bit a
+    let b ← bit b
+    let c ← bit c
+    let d ← bit d
+    let e ← bit e
+    let g ← bit g
+    pure ⟨a, b, c, d, e, g⟩
   | _ => none
 
 /-- the set-iteration order is a parameter of the model: instantiate it with the order the
@@ -49,29 +50,71 @@ def showReply : Reply → String
   | .error w => "error:" ++ w
   | .exception => "exception"
 
-def out (r : Reply × World) : World × String :=
-  (r.2, showReply r.1 ++ "\t" ++ encList ((r.2.view 0).map (·.name)) ++ "\t" ++
-    encList ((r.2.view 1).map (·.name)) ++ "\t" ++ encList (answered (r.2.view 0)))
+structure DState where
+  w : World
+  flags : Flags
 
-def stepD (w : World) : List String → World × String
-  | ["reset", ps] =>
-    if ps = "-" then ({ heap := [[]], ref := [0, 0] }, "ok") else
-    match (ps.splitOn ",").mapM decPlugin with
-    | some l => ({ heap := [l], ref := [0, 0] }, "ok")
-    | none => (w, "bad-op")
+def encFlags (fl : Flags) : String :=
+  if fl.isEmpty then "-" else ",".intercalate (fl.map fun x => enc x.1 ++ ":" ++ (if x.2 then "1" else "0"))
+
+def decFlags (f : String) : Option Flags :=
+  if f = "-" then some [] else
+  (f.splitOn ",").mapM fun item =>
+    match item.splitOn ":" with
+    | [n, "1"] => (dec n).map fun n => (n, true)
+    | [n, "0"] => (dec n).map fun n => (n, false)
+    | _ => none
+
+def decFaultMap (f : String) : Option (List (Name × Faults)) :=
+  if f = "-" then some [] else
+  (f.splitOn ",").mapM fun item =>
+    match item.splitOn ":" with
+    | [n, b] => do
+      let n ← dec n
+      let b ← decFaults b
+      pure (n, b)
+    | _ => none
+
+def out (st : DState) (r : Reply) : DState × String :=
+  (st, showReply r ++ "\t" ++ encList ((st.w.view 0).map (·.name)) ++ "\t" ++
+    encList ((st.w.view 1).map (·.name)) ++ "\t" ++ encList (answered (st.w.view 0)) ++ "\t" ++
+    encFlags (sortedFlags st.flags))
+
+/-- run a command of the flag-aware layer on the list object the `i`-th Irc refers to -/
+def onBot (st : DState) (i : Nat) (f : Bot → Reply × Bot) : DState × String :=
+  let r := st.w.ref.getD i 0
+  let res := f ⟨st.w.heap.getD r [], st.flags⟩
+  out { w := { st.w with heap := st.w.heap.set r res.2.cbs }, flags := res.2.flags } res.1
+
+def stepD (st : DState) : List String → DState × String
+  | ["reset", ps, fl] =>
+    match (if ps = "-" then some [] else (ps.splitOn ",").mapM decPlugin), decFlags fl with
+    | some l, some fl => ({ w := { heap := [l], ref := [0, 0] }, flags := fl }, "ok")
+    | _, _ => (st, "bad-op")
   | ["load", i, n, av, f, hint] =>
     match i.toNat?, dec n, decOptPlugin av, decFaults f, decList hint with
-    | some i, some n, some av, some f, some h => out (execOn (ordOf h) w i (.load n av f))
-    | _, _, _, _, _ => (w, "bad-op")
+    | some i, some n, some av, some f, some h => onBot st i fun b => loadB (ordOf h) b n av f
+    | _, _, _, _, _ => (st, "bad-op")
   | ["unload", i, n, f] =>
     match i.toNat?, dec n, decFaults f with
-    | some i, some n, some f => out (execOn (ordOf []) w i (.unload n f))
-    | _, _, _ => (w, "bad-op")
+    | some i, some n, some f => onBot st i fun b => unloadB b n f
+    | _, _, _ => (st, "bad-op")
   | ["reload", i, n, av, f, hint] =>
     match i.toNat?, dec n, decOptPlugin av, decFaults f, decList hint with
-    | some i, some n, some av, some f, some h => out (execOn (ordOf h) w i (.reload n av f))
-    | _, _, _, _, _ => (w, "bad-op")
-  | _ => (w, "bad-op")
+    | some i, some n, some av, some f, some h => onBot st i fun b => reloadB (ordOf h) b n av f
+    | _, _, _, _, _ => (st, "bad-op")
+  | ["startup", i, disk, faults, important, always, hint] =>
+    match i.toNat?, (if disk = "-" then some [] else (disk.splitOn ",").mapM decPlugin), decFaultMap faults,
+        decList important, decList hint with
+    | some i, some disk, some fm, some imp, some h =>
+      let env : Env :=
+        { disk := fun n => disk.find? fun p => lower p.name == lower n,
+          faults := fun n => ((fm.find? fun x => lower x.1 == lower n).map (·.2)).getD {},
+          important := imp, alwaysLoadImportant := always = "1" }
+      onBot st i fun b => (.success, startup (ordOf h) env b)
+    | _, _, _, _, _ => (st, "bad-op")
+  | _ => (st, "bad-op")
 
-def handler : Driver.Handler := { σ := World, init := { heap := [[]], ref := [0, 0] }, step := stepD }
+def handler : Driver.Handler :=
+  { σ := DState, init := { w := { heap := [[]], ref := [0, 0] }, flags := [] }, step := stepD }
 end C20
